@@ -185,7 +185,7 @@ def check_defect(name, idx, bad, layout, obs, case):
         obs.violation('defect_accepted:%s' % name, case,
                       {'section': sec['id']})
         return
-    if type(exc).__name__ != 'DiffXParseError':
+    if not common.is_parse_error(exc):
         obs.violation('defect_raised:%s:%s' % (name,
                                                common.exc_mechanism(exc)),
                       case, repr(exc)[:300])
@@ -243,7 +243,7 @@ def replay(case, obs):
         got, exc, _ = common.read_records(case['mutated'])
         if exc is None:
             obs.violation('defect_accepted:%s' % case['defect'], case)
-        elif type(exc).__name__ != 'DiffXParseError':
+        elif not common.is_parse_error(exc):
             obs.violation('defect_raised:%s:%s' % (
                 case['defect'], common.exc_mechanism(exc)), case, repr(exc))
         return
